@@ -3,8 +3,8 @@ import itertools
 
 ID = "C06"
 RULE = (
-    "three families, ground truth = the rows handed to csv.writer: (cells) every single-record file of 0..3 cells over a 15-cell "
-    "hostile alphabet (delimiters, both quote characters, embedded newline, non-ASCII, padding, backslashes) under each of 8 dialects "
+    "three families, ground truth = the rows handed to csv.writer: (cells) every single-record file of 0..3 cells over an 18-cell "
+    "hostile alphabet (delimiters, both quote characters, embedded newline, non-ASCII, a leading U+FEFF, padding, backslashes) under each of 8 dialects "
     "{, ; | tab} x {\" '}: the returned line equals the record cell by cell and the header names equal the cleaned cells; (records) "
     "every 2-record file (thorough 3) over rows of <=2 cells from a 7-cell sub-alphabet incl. blank records, 8 dialects: returned "
     "lines == the non-blank rows in order (an unbalanced quote must not swallow the next record); (headers) every header row of 1..3 "
@@ -13,7 +13,7 @@ RULE = (
     "state = (dialect, file, records consumed)"
 )
 BOUNDS = {
-    "quick": "5,220 single-record files x 8 dialects; 3,249 two-record files x 8 dialects; 85 header rows x 4 data lengths",
+    "quick": "6,175 single-record files x 8 dialects; 3,249 two-record files x 8 dialects; 85 header rows x 4 data lengths",
     "thorough": "as quick + all 83,521 four-cell single records x 8 dialects + all three-record files over a 4-cell sub-alphabet (21^3 x 8 dialects) and over a 5-cell one incl. blank records and embedded newlines (31^3 x 8) + CsvPaths serial and breadth-first delivery for the two-record family",
 }
 CHUNK = 200
@@ -23,7 +23,7 @@ ASSUMPTIONS = [
     "header cleaning = strip + removal of , ; | tab and backtick (docs/headers.md / the statement)",
 ]
 
-H = ["", "a", " a ", "a,b", "a;b", "a|b", "a\tb", 'a"b', '"', "'", "a'b", "a\nb", "é", "日本", "x y", "a\\b", "c\\"]
+H = ["", "a", " a ", "a,b", "a;b", "a|b", "a\tb", 'a"b', '"', "'", "a'b", "a\nb", "é", "日本", "x y", "a\\b", "c\\", "\ufeffa"]  # last: U+FEFF (a BOM when it is the first character of the file) belongs to the cell text
 SUB6 = ["a", "", 'a"b', "a'b", "a,b", "a\nb", "c\\"]
 SUB4 = ["a", '"', "'", "a;b"]
 DIALECTS = [(d, q) for d in (",", ";", "|", "\t") for q in ('"', "'")]
